@@ -43,7 +43,7 @@ Print Assumptions C08_at_or_above_served.
 
 (* the record stays a well-formed 8-byte revision and the model never reaches the Uint64 panic *)
 Theorem C08_record_wf : forall ops s, cwf s -> c_cur (crun s ops) < two64 -> cwf (crun s ops).
-Proof. intros ops s H1 H2. exact (proj1 (crun_spec ops s H1 H2)). Qed.
+Proof. exact record_wf. Qed.
 Print Assumptions C08_record_wf.
 
 (* the executable oracle used on the implementation's observations accepts every model run *)
